@@ -163,6 +163,9 @@ func checkC09(r *core.Run) {
 	}
 	r.Count("global_writes_on_sim_path", len(gks))
 
+	// ---- R6: per-VM deferred instructions act on the VM they are executed for
+	deferredClosureConfinement(r, prog, "C09")
+
 	// ---- R3: the worker only touches its own processor
 	for _, fn := range methodsNamed(prog, "pkg/bondmachine", "Processor_execute") {
 		fkey := core.SSAFuncKey(fn)
